@@ -111,10 +111,10 @@ func TestC17(t *testing.T) {
 		}
 		targets = append(targets, tg)
 	}
-	for i := 0; i < mon.Pick(60, 3000); i++ {
+	for i := 0; i < mon.Pick(60, 15000); i++ {
 		targets = append(targets, RandomizedTarget(i))
 	}
-	for i := 0; i < mon.Pick(90, 5000); i++ {
+	for i := 0; i < mon.Pick(90, 25000); i++ {
 		targets = append(targets, CustomTarget(i))
 	}
 	cookieSizes := []int{0, 1, 32, 254, 255, 256, 257, 510, 511, 512, 1000, 20000} // incl. the sizes around multiples of 256: one- vs two-byte length boundaries
